@@ -764,6 +764,10 @@ class Sandbox:
         """
         if isinstance(value, SandboxVariable):
             return value.name
+        if isinstance(value, SandboxResult):
+            # What an earlier call returned: student code gets the value
+            # itself back, not the instructor's proxy for it
+            value = value._actual_value
         if len(repr(value)) <= self.MAXIMUM_TEMPORARY_LENGTH and self._is_literal(repr(value)):
             return repr(value)
         key = '_temporary_{}_{}'.format(category, name)
